@@ -45,10 +45,21 @@ def registry_ok(ctx, g, bb, pin, removed=None):
     )
 
 
+def pins_distinct(ctx, bb, pin, removed=None):
+    """auxiliary invariant of the C07 induction (not part of the property statement, implied for every reachable state):
+    two recorded instances share a pin node only if the caller removed that node at some point"""
+    i, j, p, q = ctx.fresh_name("si"), ctx.fresh_name("sj"), ctx.fresh_name("sp"), ctx.fresh_name("sq")
+    dom = lambda n: z3.Select(bb.dom, n)
+    io = lambda n, x: z3.Or(ctx.bb_in(z3.Select(bb.val, n), x), ctx.bb_out(z3.Select(bb.val, n), x))
+    rem = (lambda n: removed(n)) if removed else (lambda n: z3.BoolVal(False))
+    return z3.ForAll([i, j, p, q], z3.Implies(z3.And(dom(i), dom(j), i != j, io(i, p), io(j, q), pin(i, p) == pin(j, q)), rem(pin(i, p))))
+
+
 def wired(ctx, g, bb=None, pin=None, removed=None):
     cl = [g.wf(ctx), typed(ctx, g), wired_edges(ctx, g)]
     if bb is not None:
         cl.append(registry_ok(ctx, g, bb, pin, removed))
+        cl.append(pins_distinct(ctx, bb, pin, removed))
     return z3.And(cl)
 
 
